@@ -21,12 +21,20 @@ type walkerFamily struct {
 	name string
 	// walkerOf returns the declaration that walks unit u ("" prefix stripped from chains inside it)
 	walkerOf func(u *types.Named) (*ast.FuncDecl, string)
+	// walkersOf (optional) overrides walkerOf with several (walker, chain prefix) alternatives, any of
+	// which may cover a position; the prefix is a dotted field chain stripped from the front
+	walkersOf func(u *types.Named) []walkerAlt
 	// handles reports whether call c (inside a walker) hands a value to the handler of wrapper w, and
 	// returns the argument expression holding the wrapper
 	handles func(info *types.Info, c *ast.CallExpr, w *types.Named) ast.Expr
 	// isHelper: a function of the family that is neither a unit walker nor a handler (its body is
 	// followed with the caller's field chain substituted for its parameter)
 	isHelper func(f *types.Func) bool
+}
+
+type walkerAlt struct {
+	fd     *ast.FuncDecl
+	prefix string
 }
 
 // coverage checks, for every unit position, that the unit's walker hands the field to the handler
@@ -42,13 +50,20 @@ func coverage(r *core.Report, rel string, fam walkerFamily, keyPrefix string) (c
 	}
 	for _, pos := range positions {
 		key := keyPrefix + pos.String()
-		fd, strip := fam.walkerOf(pos.Unit)
-		if fd == nil {
+		var alts []walkerAlt
+		if fam.walkersOf != nil {
+			alts = fam.walkersOf(pos.Unit)
+		} else if fd0, strip0 := fam.walkerOf(pos.Unit); fd0 != nil {
+			alts = []walkerAlt{{fd0, strip0}}
+		}
+		if len(alts) == 0 {
 			r.Bad(key, "-", fmt.Sprintf("no %s walker for %s: references below it are never handled", fam.name, pos.Unit.Obj().Name()))
 			missing = append(missing, pos)
 			continue
 		}
+		fd := alts[0].fd
 		found := false
+		strip := ""
 		var seen []string
 		// chains(fd, prefix): chains handed to the wrapper's handler inside fd, directly or through
 		// helper functions of the same family (receiver methods) to which a field chain is passed
@@ -88,10 +103,12 @@ func coverage(r *core.Report, rel string, fam walkerFamily, keyPrefix string) (c
 							full = full[1:]
 						}
 						if depth == 0 {
-							if strip != "" && len(full) > 0 && full[0] == strip {
-								full = full[1:]
-							} else if strip != "" {
+							var okp bool
+							if full, okp = stripPrefix(full, strip); !okp {
 								continue
+							}
+							for len(full) > 0 && full[0] == "Value" {
+								full = full[1:]
 							}
 						}
 						seen = append(seen, strings.Join(full, "."))
@@ -114,18 +131,20 @@ func coverage(r *core.Report, rel string, fam walkerFamily, keyPrefix string) (c
 						if k < len(c.Args) {
 							for _, ch := range fieldChains(ff, info, c.Args[k]) {
 								c2, rooted := norm(ch)
-								if !rooted || len(c2) == 0 {
+								if !rooted || (len(c2) == 0 && depth == 0) {
 									continue
 								}
 								full := append(append([]string(nil), prefix...), c2...)
 								for len(full) > 0 && full[0] == "Value" && len(prefix) == 0 {
 									full = full[1:]
 								}
-								if depth == 0 && strip != "" {
-									if len(full) > 0 && full[0] == strip {
-										full = full[1:]
-									} else {
+								if depth == 0 {
+									var okp bool
+									if full, okp = stripPrefix(full, strip); !okp {
 										continue
+									}
+									for len(full) > 0 && full[0] == "Value" {
+										full = full[1:]
 									}
 								}
 								saveStrip := strip
@@ -140,7 +159,10 @@ func coverage(r *core.Report, rel string, fam walkerFamily, keyPrefix string) (c
 				return true
 			})
 		}
-		collect(fd, nil, "", 0)
+		for _, alt := range alts {
+			strip = alt.prefix
+			collect(alt.fd, nil, "", 0)
+		}
 		if found {
 			covered = append(covered, pos)
 			r.OK(key, p.Pos(fd.Pos()), fmt.Sprintf("%s hands it to the %s handler", core.FuncName(fd), pos.Wrapper.Obj().Name()))
@@ -455,9 +477,6 @@ func c02Sib(r *core.Report) {
 			{"resolveExampleRef", "isEmpty", "an example component may legally be empty"},
 			{"resolveSchemaRef", "visited", "schemas additionally thread the list of visited component names"},
 			{"resolveSchemaRef", "resolveKRef", "schemas additionally thread the list of visited component names (extra argument of the recursive call)"},
-			{"resolveSecuritySchemeRef", "loadSingleElementFromURI", "a security scheme has no nested references, so the base location for further resolution is not needed; which location is recorded as RefPath is C16.refpath's concern"},
-			{"resolveExampleRef", "loadSingleElementFromURI", "an example has no nested references (see resolveSecuritySchemeRef)"},
-			{"resolveLinkRef", "loadSingleElementFromURI", "a link has no nested references (see resolveSecuritySchemeRef)"},
 		}
 		// order: the majority statements occur in the same order in every member (a `defer` evaluates
 		// its arguments where it stands, so moving it changes what is handed to the waiting positions)
@@ -669,4 +688,21 @@ func canonHeader(info *types.Info, fd *ast.FuncDecl, ifs *ast.IfStmt, hdr, wrapp
 	}
 	hdr = abstractKind(hdr, wrapper, kind)
 	return strings.ReplaceAll(hdr, " := ", " = ")
+}
+
+// stripPrefix removes the dotted prefix from the chain ("" matches anything).
+func stripPrefix(chain []string, prefix string) ([]string, bool) {
+	if prefix == "" {
+		return chain, true
+	}
+	parts := strings.Split(prefix, ".")
+	if len(chain) < len(parts) {
+		return chain, false
+	}
+	for i, p := range parts {
+		if chain[i] != p {
+			return chain, false
+		}
+	}
+	return chain[len(parts):], true
 }
